@@ -417,11 +417,16 @@ def run(ctx):
     for part in common.pmap(work, [('map-file', chunk) for chunk in common.chunked(items, max(1, len(items) // 32))]):
         acc += part
     ctx.layer('contact-map-files', acc)
+    from props import c18_cli
+    c18_cli.run_layer(ctx)
 
 
 def replay(case):
     common.bind_repo()
     acc = Acc()
+    if case.get('layer') == 'cli':
+        from props import c18_cli
+        return c18_cli.replay(case)
     if case.get('layer') == 'map-file':
         map_file_case((case['numbering'], case['pairs'], case['flag_shift'], case['noise']), acc)
         return [(s_, d) for s_, d, _ in acc.violations]
